@@ -1196,11 +1196,43 @@ def lookupFn (fns : List (String × FnDecl)) : List String → Option FnDecl
     | some d => some d
     | none => lookupFn fns ks
 
+-- [poller] begin: trait-impl method resolution
+/-- does the function take a receiver (`self`, `&self`, `&mut self`)? -/
+def SelfKind.hasRecv : SelfKind → Bool
+  | .none => false
+  | _ => true
+
+/-- the methods named `m` (functions WITH a receiver) of the `impl` blocks of the translated files whose
+    self type is `tn`, whatever their key (`Trait for T::m`) -/
+def traitImplCands (fns : List (String × FnDecl)) (tn m : String) : List FnDecl :=
+  match fns with
+  | [] => []
+  | (_, d) :: rest =>
+    match d.selfTy == tn && d.ident == m && d.self.hasRecv with
+    | true => d :: traitImplCands rest tn m
+    | false => traitImplCands rest tn m
+
+/-- Rust: `x.m(..)` on a value of the struct type `T` that has no inherent method `m` is the method `m`
+    of a trait implemented for `T` (here: `impl ChronyOperations for ClockErrorBoundPoller`, called
+    through a parameter `impl ChronyOperations`; the interpreter is dynamically typed, so the value's
+    own type decides, as monomorphisation does).  A rule only when EXACTLY ONE impl block for `T` in the
+    translated files has such a method (two traits with the same method name are ambiguous in Rust, and
+    impls for different instances of a generic type share the bare name `T`: no rule then). -/
+def traitImplDecl (fns : List (String × FnDecl)) (tn m : String) : Option FnDecl :=
+  match traitImplCands fns tn m with
+  | [d] => some d
+  | _ => none
+-- [poller] end
+
 /-- the method `m` of a user-defined type in `fns`: `x.m(..)` on a struct value of type `T`, or on a
     variant of an enum `T` of the generated tables, is `T::m` -/
 def methodDecl (fns : List (String × FnDecl)) (enums : List (String × List (String × Nat))) :
     Value → String → Option FnDecl
-  | .struct tn _, m => lookupFn fns [tn ++ "::" ++ m]
+  | .struct tn _, m =>
+    match lookupFn fns [tn ++ "::" ++ m] with
+    | some d => some d
+    -- [poller] no inherent method `T::m`: the method `m` of the one trait impl for `T` that has it
+    | none => traitImplDecl fns tn m
   | .enumv p args, m =>
     match userTypeName (.enumv p args) with
     | some tn => lookupFn fns [tn ++ "::" ++ m]
@@ -1322,6 +1354,15 @@ def eval : Nat → Ctx → Frame → Expr → St → Res
               | none =>
                 firstRule (ctx.ext.method ctx.inputs rv m vs st) (.stuck "method call without a rule")
           | _ => .stuck "internal: evalList result"
+    -- [poller] `&mut x` of a LOCAL VARIABLE `x` (as in `f.read_to_string(&mut contents)`): the mutable
+    -- reference is the object `ext "&mut" [x]`.  The core has no rule that reads or writes through it
+    -- (`*r`, a field, a method on it, passing it to a function of `fns` and using it there: all stuck);
+    -- only a dictionary rule for a LIBRARY method that is called in the scope of `x` may store through
+    -- it (`envSet`).  `&mut` of anything else stays without a rule (`unOp .refMut`).
+    | .unary .refMut (.path [x]) =>
+      match envGet st.env x with
+      | some _ => .val (.ext "&mut" [.str x]) st
+      | none => .stuck "&mut of something that is not a local variable"
     | .unary op e => (eval n ctx fr e st).bind fun v st => runUnary ctx op v st
     | .binary .and a b =>
       -- `&&` evaluates its right operand only if the left one is true
